@@ -98,13 +98,17 @@ var c17RedirSrcFull = []string{"f", "&-", "&-2", "&-1", "&0", "&1", "&2", "&3", 
 var c17RedirOpsCore = []string{">", "<"}
 var c17RedirSrcCore = []string{"f", "&-", "&-1", "&0", "&1", "&2", "&3", "&7"}
 
+// %R marks where the redirections go (default: at the end). The last two put
+// the redirected form at the reading end of a pipeline: as a reader, and as a
+// writer that runs after the pipe's writing side has finished (`all` returns
+// once the pipe's channel is closed).
 var c17RedirCmds = []string{
-	"echo a", "put a", "each {|x| put $x }", "all", "nop", "{ echo a >&2; put b >&3 }", "slurp", "count",
+	"echo a", "put a", "each {|x| put $x }", "all", "nop | { all; put a %R }", "echo q | all", "nop", "{ echo a >&2; put b >&3 }", "slurp", "count",
 }
 
-const c17RedirCmdsCore = 4
+const c17RedirCmdsCore = 6
 
-var c17RedirReaders = map[string]bool{"each {|x| put $x }": true, "all": true, "slurp": true, "count": true}
+var c17RedirReaders = map[string]bool{"each {|x| put $x }": true, "all": true, "slurp": true, "count": true, "echo q | all": true}
 
 // c17ReadsOwnOutput follows the redirections on a symbolic port table (0 =
 // the input port, 1 and 2 = the output ports, the rest unset) and reports
@@ -1078,7 +1082,11 @@ func TestVerifC17(t *testing.T) {
 				g.skipped["redirection: a reading command whose input is (a duplicate of) the evaluation's own output port legitimately blocks"]++
 				return
 			}
-			g.cases = append(g.cases, c17Case{'E', cmd + " " + strings.Join(rs, " "), sec + "/" + cmd})
+			src := cmd + " " + strings.Join(rs, " ")
+			if strings.Contains(cmd, "%R") {
+				src = strings.Replace(cmd, "%R", strings.Join(rs, " "), 1)
+			}
+			g.cases = append(g.cases, c17Case{'E', src, sec + "/" + cmd})
 		}
 		secR1 := section(func() {
 			for _, cmd := range c17RedirCmds {
